@@ -391,10 +391,18 @@ func (k *Keeper) ApplyMessageWithConfig(ctx sdk.Context,
 	if contractCreation {
 		// take over the nonce management from evm:
 		// - reset sender's nonce to msg.Nonce() before calling evm.
-		// - increase sender's nonce by one no matter the result.
+		// - afterwards restore the nonce found before the call, but at least msg.Nonce()+1 no matter
+		//   the result. The ante handler has already incremented the sequence once for EVERY message
+		//   of the cosmos tx, so when this creation is followed by another message of the same sender
+		//   the nonce found here is larger than msg.Nonce()+1 and must not be lowered (otherwise the
+		//   nonce of the later message is accepted a second time).
+		nonceBefore := stateDB.GetNonce(sender.Address())
 		stateDB.SetNonce(sender.Address(), msg.Nonce())
 		ret, _, leftoverGas, vmErr = evm.Create(sender, msg.Data(), leftoverGas, msg.Value())
-		stateDB.SetNonce(sender.Address(), msg.Nonce()+1)
+		if nonceBefore < msg.Nonce()+1 {
+			nonceBefore = msg.Nonce() + 1
+		}
+		stateDB.SetNonce(sender.Address(), nonceBefore)
 	} else {
 		ret, leftoverGas, vmErr = evm.Call(sender, *msg.To(), msg.Data(), leftoverGas, msg.Value())
 	}
